@@ -123,6 +123,12 @@ def tape_lines(tapes, lines):
 def run(prop, tier):
     chk = Check(prop, tier, "model_checking")
     wd = workdir("%s-%s" % (prop, tier))
+    run_into(chk, prop, tier, wd)
+    return chk.finish()
+
+
+def run_into(chk, prop, tier, wd):
+    os.makedirs(wd, exist_ok=True)
     total = 0
     all_findings = []     # (tapes file, finding)
     model_dev = 0
@@ -178,10 +184,10 @@ def run(prop, tier):
             chk.violation({"input": "ast/" + target, "kind": "C19-generated-stale", "detail": "ast/%s differs from the output of the repository's generator" % target,
                            "replay": {"family": "grammar", "property": "C19", "generated": target}})
     if prop not in OBS_MODULE:
-        chk.cov["traces_validated_against_impl"] = total
-    chk.cov["distinct_nontrivial"] = max(2, total)
+        chk.cov["traces_validated_against_impl"] += total
+    chk.cov["distinct_nontrivial"] = max(2, chk.cov["distinct_nontrivial"], total)
     chk.cov["exhaustive"] = True
-    chk.cov["rule"] = ("every derivation of the reference grammar G within the budget (= number of non-default choices: template, optional clause, list length, flag, enum value, "
+    chk.cov["rule"] = (chk.cov["rule"] + " || " if chk.cov["rule"] else "") + ("every derivation of the reference grammar G within the budget (= number of non-default choices: template, optional clause, list length, flag, enum value, "
                        "surface variant, leaf spelling) from every start symbol, one tape each; each tape is rendered (several trivia/case profiles where the property needs them) and "
                        "replayed into the real entry point; all sentences are distinct derivations")
     chk.notes["node_kinds_reached"] = len([k for k in kinds if not k.startswith("posl:")])
@@ -205,7 +211,6 @@ def run(prop, tier):
     chk.assumptions += ["G (GExpr/GQuery/GDML/GDDL.tla) is the reference grammar, written from the documentation and the node documentation of ast/ast.go",
                        "token comparison classes as in DESIGN.md 2.5; '>>' and '<>' are compared as their two halves",
                         "the real lexer used to read SQL() back is itself validated against LexerCore.tla (C14)"]
-    return chk.finish()
 
 
 OBS_MODULE = {"C05": "ObserveTrace", "C17": "WalkTrace", "C19": "PosLangTrace"}
